@@ -252,7 +252,7 @@ def pool_a():
         inp = inputs[(i * 13) % len(inputs)]
         if inp[0] == 'gen' or 'count' in s or 'counttuple' in s:
             continue     # generators are consumed by design; the counting init is an instrumented (mutating) user callable
-        out.append(('c15', (lambda s=s, inp=inp: (c15.mk_input(inp[0], inp[1], inp[2], s[1] != 'T'), c15.build(s)[0], None))))
+        out.append(('c15', (lambda s=s, inp=inp: (c15.mk_input(inp[0], inp[1], inp[2], s[1] == 'k'), c15.build(s)[0], None))))
     gr = c16.gen_specs('quick')
     for i, (kind, term) in enumerate(gr[::max(1, len(gr) // 40)]):
         from glom.grouping import Group
